@@ -348,6 +348,36 @@ func checkC11(w *World) {
 					}
 				}
 			}
+			// the same allow-list when the lookup was hoisted out of the loop: the value is used only where the node is
+			// known to be a namespace node
+			if !lk.CommaOk {
+				nsGuarded := func(b *ssa.BasicBlock) bool {
+					for _, a := range guardAtoms(b) {
+						if ex, ok := a.V.(*ssa.Extract); ok && ex.Index == 1 && a.Pol {
+							if ta, ok := ex.Tuple.(*ssa.TypeAssert); ok {
+								if n, _ := nodeIface(ta.AssertedType); n != nil && n.Obj().Name() == "Namespace" {
+									return true
+								}
+							}
+						}
+					}
+					return false
+				}
+				uses, nsOnly := 0, true
+				for _, rr := range referrers(lk) {
+					if _, isDbg := rr.(*ssa.DebugRef); isDbg {
+						continue
+					}
+					uses++
+					if !nsGuarded(rr.Block()) {
+						nsOnly = false
+					}
+				}
+				if uses > 0 && nsOnly {
+					w.check(P, "R11.2", fmt.Sprintf("lookup in %s in %s (namespace-axis name test)", field, fn.Name()), lk.Pos(), true, "allow-listed: the value is used only for nodes on the namespace axis, which follow the library's own URI rule and are outside the property")
+					return
+				}
+			}
 			ok2, why := lookupFailsWithError(fn, lk)
 			w.check(P, "R11.2", fmt.Sprintf("lookup in %s in %s", field, fn.Name()), lk.Pos(), ok2, why)
 		})
@@ -923,7 +953,33 @@ func (w *World) functionArgsInOrderIn(h *ssa.Function, r *Roles) (bool, string) 
 			}
 		}
 	})
-	return asc && appended, fmt.Sprintf("arguments evaluated in ascending order of the argument list: %v; each result appended to the argument slice: %v", asc, appended)
+	// or stored at the loop index into a slice made with the length of the argument list
+	if !appended {
+		allInstrs(h, func(in ssa.Instruction) {
+			st, ok := in.(*ssa.Store)
+			if !ok {
+				return
+			}
+			ia, ok := st.Addr.(*ssa.IndexAddr)
+			if !ok || !ascendingCounter(ia.Index) {
+				return
+			}
+			if _, isMake := ia.X.(*ssa.MakeSlice); !isMake {
+				return
+			}
+			if ld, ok := st.Val.(*ssa.UnOp); ok {
+				if fa, ok := ld.X.(*ssa.FieldAddr); ok && fa.Field == r.CtxResultField && fa.X == ssa.Value(argEval.CopyCtx) {
+					// the same index designates the evaluated argument
+					if nld, ok := nx.Call.Args[1].(*ssa.UnOp); ok {
+						if nia, ok := nld.X.(*ssa.IndexAddr); ok && nia.Index == ia.Index {
+							appended = true
+						}
+					}
+				}
+			}
+		})
+	}
+	return asc && appended, fmt.Sprintf("arguments evaluated in ascending order of the argument list: %v; each result appended to the argument slice (or stored at the argument's own index): %v", asc, appended)
 }
 
 func (w *World) settingsOptions(P string, r *Roles) {
@@ -934,7 +990,7 @@ func (w *World) settingsOptions(P string, r *Roles) {
 	}
 	// three MakeMap stored into the settings alloc; each ContextApply called with the address of it
 	// (in Exec itself or in a constructor helper it calls before the evaluation starts)
-	var settings *ssa.Alloc
+	var settings, settingsVar *ssa.Alloc
 	nSettings := 0
 	var setupFns []*ssa.Function
 	for g := range staticReach(exec, func(x *ssa.Function) bool { return fnPkgKey(x) == "exec" && x != r.ExecContext }) {
@@ -962,6 +1018,41 @@ func (w *World) settingsOptions(P string, r *Roles) {
 			}
 		})
 	}
+	// the settings may also be built by a constructor that returns them by value: then the variable that receives them
+	// (and to which the options are applied) is what counts, provided the constructor's value has the fresh maps
+	if settings != nil {
+		ctor := settings.Parent()
+		for _, g := range setupFns {
+			allInstrs(g, func(in ssa.Instruction) {
+				st, ok := in.(*ssa.Store)
+				if !ok {
+					return
+				}
+				al, ok := st.Addr.(*ssa.Alloc)
+				if !ok {
+					return
+				}
+				c, ok := st.Val.(*ssa.Call)
+				if !ok || staticCallee(c) != ctor {
+					return
+				}
+				// every return of the constructor is a load of the allocation with the maps
+				all, n := true, 0
+				allInstrs(ctor, func(in2 ssa.Instruction) {
+					if ret, ok := in2.(*ssa.Return); ok {
+						n++
+						ld, ok := ret.Results[0].(*ssa.UnOp)
+						if !ok || ld.X != ssa.Value(settings) {
+							all = false
+						}
+					}
+				})
+				if all && n > 0 {
+					settingsVar = al
+				}
+			})
+		}
+	}
 	if nSettings > 1 {
 		w.undecided(P, "R11.6", "Exec settings", exec.Pos(), "more than one ContextSettings is built on the way into the evaluation")
 		settings = nil
@@ -979,13 +1070,17 @@ func (w *World) settingsOptions(P string, r *Roles) {
 			}
 		}
 		applied := false
-		sfn := settings.Parent()
+		target := settings
+		if settingsVar != nil {
+			target = settingsVar
+		}
+		sfn := target.Parent()
 		allInstrs(sfn, func(in ssa.Instruction) {
 			c, ok := in.(*ssa.Call)
 			if !ok || staticCallee(c) != nil || c.Call.IsInvoke() {
 				return
 			}
-			if len(c.Call.Args) == 1 && c.Call.Args[0] == ssa.Value(settings) && loopBlocks(sfn)[c.Block()] {
+			if len(c.Call.Args) == 1 && c.Call.Args[0] == ssa.Value(target) && loopBlocks(sfn)[c.Block()] {
 				applied = true
 			}
 		})
@@ -1113,7 +1208,41 @@ func (w *World) settingsOptions(P string, r *Roles) {
 				ok = true
 			}
 		})
-		w.check(P, "R11.6", "option "+name, fn.Pos(), ok, fmt.Sprintf("delegates to %sNS(\"\", local, value): %v", name, ok))
+		// or directly: <name>Name(XmlName{Local: local}, value) - the name in no namespace
+		allInstrs(fn, func(in ssa.Instruction) {
+			c, isCall := in.(*ssa.Call)
+			if !isCall || staticCallee(c) == nil || len(c.Call.Args) != 2 || staticCallee(c).Name() != name+"Name" {
+				return
+			}
+			if c.Call.Args[1] != ssa.Value(fn.Params[1]) {
+				return
+			}
+			if ld, isLd := c.Call.Args[0].(*ssa.UnOp); isLd {
+				if al, isAl := ld.X.(*ssa.Alloc); isAl {
+					st := al.Type().(*types.Pointer).Elem().Underlying().(*types.Struct)
+					spaceOK, localOK := true, false
+					for _, s2 := range storesInto(al) {
+						fa, isFA := s2.Addr.(*ssa.FieldAddr)
+						if !isFA {
+							spaceOK = false
+							continue
+						}
+						switch st.Field(fa.Field).Name() {
+						case "Space":
+							if k, isK := constString(s2.Val); !isK || k != "" {
+								spaceOK = false
+							}
+						case "Local":
+							localOK = s2.Val == ssa.Value(fn.Params[0])
+						}
+					}
+					if spaceOK && localOK {
+						ok = true
+					}
+				}
+			}
+		})
+		w.check(P, "R11.6", "option "+name, fn.Pos(), ok, fmt.Sprintf("binds the name in no namespace (%sNS(\"\", local, value) or %sName(XmlName{Local: local}, value)): %v", name, name, ok))
 	}
 	w.floor(P, "R11.6", 8)
 }
